@@ -13,7 +13,8 @@ def claim(pid, text, note, technique, ref):
 
 EXEC_NOTE = ("Trusted base: the Go toolchain, the go/ast-generated tick overlay (textual insertion of vtick.Tick() at function entries "
              "and loop heads of the current /repo tree), the reference model written in Go next to the check, and the bound stated in the evidence. "
-             "Nothing is claimed beyond the completed bound.")
+             "Nothing is claimed beyond the completed bound. The generator families and bounds actually executed (they grew with every round of seeded changes) "
+             "are recorded verbatim in coverage.rule / coverage.bound_completed of the evidence file each run writes.")
 
 claim("C03",
       "Bounded exhaustive exploration of the real parser: every token sequence of length <=3 (quick) / <=4 (thorough) over a vocabulary covering every token type in 12 tag framings, 18 nesting families at every depth 1..256, and every truncation / single-byte edit (pairs in thorough) of a construct-covering corpus; each input is executed on plush.Parse under panic recovery and a step budget (hang = budget exhausted, no wall clock). Totality is a property of every input, so enumeration of the small-input space reaches the nil-child/EOF combinations a handful of tests cannot.",
